@@ -80,6 +80,8 @@ class SpecLib:
             raise Unsupported('spec %s called with %d args' % (fn.name, len(args)))
         cargs = []
         for (pn, pt), a in zip(fn.params, args):
+            if isinstance(a, V) and a.ty[0] == 'opt' and pt[0] != 'opt' and pt != T.ANY:
+                a = T.opt_val(a)       # specs are total: a null argument is outside the domain (underspecified)
             try:
                 cargs.append(T.coerce(a, pt))
             except T.TypeMismatch as e:
@@ -126,11 +128,12 @@ class SpecLib:
                 except T.TypeMismatch as e:
                     raise Unsupported('spec return: %s' % e)
             if isinstance(s, ast.If):
-                c = z3.simplify(eng.truth(eng.eval(s.test, fr)))
+                c = eng.truth(eng.eval(s.test, fr))
+                sc = z3.simplify(c)
                 rest = stmts[i + 1:]
-                if z3.is_true(c):
+                if z3.is_true(sc):
                     return self.pure_block(eng, list(s.body) + rest, fr, ret_ty)
-                if z3.is_false(c):
+                if z3.is_false(sc):
                     return self.pure_block(eng, list(s.orelse) + rest, fr, ret_ty)
                 f1 = _copy_frame(fr)
                 a = self.pure_block(eng, list(s.body) + rest, f1, ret_ty)
